@@ -11,6 +11,7 @@ import (
 	"fmt"
 	"io"
 	"os"
+	"path/filepath"
 	"sort"
 	"strings"
 	"sync"
@@ -583,6 +584,23 @@ func vDiskCase(t *testing.T, rec *vCase, rng *vRand, ci int) {
 				if _, local := acked[lk]; !local {
 					rec.Violation("C18", "disk.contains.over-proxy-limit", fmt.Sprintf("Contains reported a %d-byte backend object present with max_proxy_blob_size %d", fs, maxProxy), rec.CaseOps())
 				}
+			}
+		case x < 98: // ---- an upload whose temp file cannot be created (its shard directory is missing)
+			d := vGenBytes(ci, 7000+oi, 1, 100+rng.Intn(9000))
+			h := vHash(d)
+			kd := []cache.EntryKind{cache.CAS, cache.AC, cache.RAW}[rng.Intn(3)]
+			shard := filepath.Join(c.dir, kd.DirName(), h[:2])
+			if err := os.Rename(shard, shard+".away"); err == nil {
+				perr := c.Put(ctx, kd, h, int64(len(d)), bytes.NewReader(d))
+				_ = os.Rename(shard+".away", shard)
+				// for the model this is an upload whose stream fails before the first byte: reservation
+				// taken (with its evictions), nothing written, reservation returned
+				rec.Op(fmt.Sprintf("disk.put kind=%s hash=%s size=%d data=gen:%d:%d:1:0 fault=1 hashok=1 rnd=-", kd.String(), h, len(d), ci, 7000+oi),
+					"put="+vCode(perr)+" "+vDiskCore(c, px))
+				if perr == nil {
+					rec.Violation("C01", "disk.put.nocreate-acked", "Put acknowledged although its file could not be created", rec.CaseOps())
+				}
+				opKind = "put-nocreate-" + vCode(perr)
 			}
 		default:
 		}
